@@ -164,7 +164,6 @@ inductive CliErr
   | value          -- ValueError (float()/int() of a malformed literal)
   | zeroDivision   -- ZeroDivisionError
   | index          -- IndexError
-  | unpack         -- ValueError: too many values to unpack (splitting read-back)
 deriving DecidableEq, Repr
 
 /-- Python `str.split(sep)` for a one-character separator -/
@@ -435,22 +434,25 @@ def finalFiles : List (List Char × InputSpec) → List (List Char × InputSpec)
 def parametersRange {α : Type} (l : List α) : List (Option α) :=
   if l.isEmpty then [none] else l.map some
 
-/-- one simulation of the batch: code parameters (`none` = `{}`) and error rate -/
-abbrev SimKey := Option (Int × Int × Int) × Option Rat
+/-- one simulation of the batch: code parameters (`none` = `{}`) and the error rates it runs
+    (one rate for a `DirectSimulation`, the whole list for a `SplittingSimulation`) -/
+abbrev SimKey := Option (Int × Int × Int) × List (Option Rat)
 
-/-- `itertools.product(codes, error_models, decoder_range, error_rates)` for a generated file
-    (one error model and one decoder entry, since their `parameters` are dicts) -/
-def productCodesRates (codes : List (Option (Int × Int × Int))) (rates : List (Option Rat)) :
-    List SimKey :=
-  codes.flatMap fun c => rates.map fun r => (c, r)
+/-- `get_simulations(data)` for the file content `spec`, in order.  A generated file has one
+    error model and one decoder entry (their `parameters` are dicts), so
+    `itertools.product(codes, error_models, decoder_range, error_rates)` is codes × rates
+    (method `direct`: one `DirectSimulation` per element) and
+    `itertools.product(codes, error_models, decoder_range)` is the codes (method `splitting`:
+    one `SplittingSimulation` per code holding every rate; fix 8b2c943). -/
+def expand (spec : InputSpec) : List SimKey :=
+  let codes := parametersRange spec.codeParams
+  let rates := parametersRange spec.errorRates
+  if spec.methodName = "direct".toList then codes.flatMap fun c => rates.map fun r => (c, [r])
+  else if spec.methodName = "splitting".toList then codes.map fun c => (c, rates)
+  else []
 
-/-- `get_simulations(data)` for the file content `spec`: the list of `DirectSimulation`s in
-    order.  Method `splitting` unpacks the 4-tuples of the product into 3 names and raises. -/
-def expand (spec : InputSpec) : Except CliErr (List SimKey) :=
-  let inst := productCodesRates (parametersRange spec.codeParams) (parametersRange spec.errorRates)
-  if spec.methodName = "direct".toList then .ok inst
-  else if spec.methodName = "splitting".toList then
-    (if inst.isEmpty then .ok [] else .error .unpack)
-  else .ok []
+/-- the (code, rate) pairs the simulations of a batch cover, with multiplicity -/
+def coveredPairs (sims : List SimKey) : List (Option (Int × Int × Int) × Option Rat) :=
+  sims.flatMap fun s => s.2.map fun r => (s.1, r)
 
 end Panqec.Cli
